@@ -80,24 +80,24 @@ fn separator_len_spec() {
 /// single-separator use: <= 256 bits at offset < 8), bit offsets 0..8, any length that fits,
 /// destination of any sufficient length up to 48 bytes.
 fn memcpy_contract(nbytes: usize) {
-    let src: [u8; 40] = kani::any();
-    let dst0: [u8; 48] = kani::any();
+    let src: [u8; 72] = kani::any();
+    let dst0: [u8; 80] = kani::any();
     let mut dst = dst0;
     let sstart: usize = kani::any();
     let dstart: usize = kani::any();
     let len: usize = kani::any();
     let dlen: usize = kani::any();
     kani::assume(sstart < 8 && dstart < 8);
-    kani::assume(len >= 1 && len <= 320);
+    kani::assume(len >= 1 && len <= 576);
     // the source is the smallest multiple of 8 bytes containing the bits
     kani::assume(sstart + len <= nbytes * 8 && sstart + len > (nbytes - 8) * 8);
-    kani::assume(dlen <= 48 && dlen * 8 >= dstart + len);
+    kani::assume(dlen <= 80 && dlen * 8 >= dstart + len);
     bitwise_memcpy(&mut dst[..dlen], dstart, &src[..nbytes], sstart, len);
     let j: usize = kani::any();
     kani::assume(j < len);
     assert!(bit(&dst, dstart + j) == bit(&src, sstart + j));
     let q: usize = kani::any();
-    kani::assume(q < 48 * 8);
+    kani::assume(q < 80 * 8);
     if q < dstart || q >= dstart + len {
         assert!(bit(&dst, q) == bit(&dst0, q));
     }
@@ -134,6 +134,20 @@ fn bitwise_memcpy_4chunks() {
 fn bitwise_memcpy_5chunks() {
     memcpy_contract(40);
 }
+
+macro_rules! memcpy_harness {
+    ($name:ident, $n:expr) => {
+        #[kani::proof]
+        #[kani::unwind(12)]
+        fn $name() {
+            memcpy_contract($n * 8);
+        }
+    };
+}
+memcpy_harness!(bitwise_memcpy_6chunks, 6);
+memcpy_harness!(bitwise_memcpy_7chunks, 7);
+memcpy_harness!(bitwise_memcpy_8chunks, 8);
+memcpy_harness!(bitwise_memcpy_9chunks, 9);
 
 #[cfg(test)]
 include!("/verif/.build/playback/bit_ops.inc");
